@@ -20,7 +20,7 @@ var recSpend = ev.New("C06", "standard-spends-mutated",
 
 func propSpend(t *rapid.T) {
 	s := genG3Spend(t)
-	fs := genFlagSet().Draw(t, "flags")
+	fs := genFlagSetWitnessHeavy().Draw(t, "flags")
 	compare(t, recSpend, s, fs)
 }
 
